@@ -13,6 +13,7 @@ let dispatch kind args =
   | "wffn" -> C05.run kind args
   | "callbind" -> C14.run kind args
   | "unpack" | "shiftlines" -> C16.run kind args
+  | "jsonvalid" | "jsonstr" -> C17.run kind args
   | _ -> failwith ("unknown kind " ^ kind)
 
 let () =
